@@ -431,11 +431,122 @@ func aItems(tier string) []AScn {
 	return aCache[tier]
 }
 
+// ---- (d) the public-IP fetcher (cache + providers) over histories --------------------------------------------
+
+var fOps = []string{"get/provider-answers-ipv4", "get/provider-answers-ipv6", "get/providers-fail", "advance-1h", "advance-past-2h"}
+
+type fOut struct {
+	ip   string
+	err  bool
+	reqs bool // providers were contacted
+}
+
+type fRT struct {
+	mode *int
+	reqs *int
+}
+
+func (t fRT) RoundTrip(req *http.Request) (*http.Response, error) {
+	vsched.Yield("http")
+	*t.reqs++
+	vtime.Sleep(5 * time.Millisecond)
+	mk := func(code int, body string) *http.Response {
+		return &http.Response{StatusCode: code, Status: fmt.Sprintf("%d status", code), Body: io.NopCloser(strings.NewReader(body)), Header: http.Header{}, Request: req}
+	}
+	switch *t.mode {
+	case 0:
+		return mk(200, "192.0.2.44\n"), nil
+	case 1:
+		return mk(200, "2001:db8::44\n"), nil
+	}
+	return mk(404, "nope"), nil
+}
+
+// runFetcher executes the history on one real PublicIPFetcher (flushed cache, virtual clock) and on the reference model.
+func runFetcher(h []int) (got, want []fOut, x *vsched.Exec) {
+	cache.Cache.Flush()
+	mode, reqs := 0, 0
+	f := publicip.VerifNewFetcher(&http.Client{Transport: fRT{&mode, &reqs}})
+	x = vsched.Run(vsched.Config{MaxVirtual: 100 * time.Hour}, nil, func() {
+		refIP, refExp := "", int64(-1)
+		for _, op := range h {
+			switch op {
+			case 0, 1, 2:
+				mode = op
+				before := reqs
+				ip, err := f.GetIP(context.Background())
+				o := fOut{err: err != nil, reqs: reqs > before}
+				if err == nil {
+					o.ip = ip.String()
+				}
+				got = append(got, o)
+				if refExp >= 0 && vsched.Now() <= refExp {
+					want = append(want, fOut{ip: refIP})
+				} else if op == 2 {
+					refExp = -1
+					want = append(want, fOut{err: true, reqs: true})
+				} else {
+					refIP = []string{"192.0.2.44", "2001:db8::44"}[op]
+					refExp = vsched.Now() + int64(2*time.Hour)
+					want = append(want, fOut{ip: refIP, reqs: true})
+				}
+			case 3:
+				vtime.Sleep(time.Hour)
+			case 4:
+				vtime.Sleep(2*time.Hour + time.Minute)
+			}
+		}
+	})
+	return
+}
+
+func fHistories(tier string) [][]int {
+	depth := 4
+	if tier == "thorough" {
+		depth = 5
+	}
+	var out [][]int
+	var rec func(cur []int)
+	rec = func(cur []int) {
+		if len(cur) > 0 && cur[len(cur)-1] <= 2 {
+			out = append(out, append([]int{}, cur...)) // histories ending in a lookup
+		}
+		if len(cur) == depth {
+			return
+		}
+		for op := range fOps {
+			rec(append(cur, op))
+		}
+	}
+	rec(nil)
+	return out
+}
+
+func checkFetcher(h []int) (string, string) {
+	got, want, x := runFetcher(h)
+	var names []string
+	for _, o := range h {
+		names = append(names, fOps[o])
+	}
+	switch x.Outcome {
+	case vsched.Crash:
+		return "crash", fmt.Sprintf("history %v: %s", names, x.Crash.Value)
+	case vsched.Deadlock, vsched.Horizon:
+		return "lookup-never-returns", fmt.Sprintf("history %v", names)
+	}
+	// (the exact instant the entry was stored lies within the lookup; the reference stamps it at the lookup's end: a
+	// lookup exactly at the boundary is not in the alphabet)
+	if !reflect.DeepEqual(got, want) {
+		return "differs-from-reference", fmt.Sprintf("history %v: got %+v want %+v", names, got, want)
+	}
+	return "", ""
+}
+
 func pCount() int { return 5 * 5 * 5 * 5 * 5 * 3 }
 
 const pChunk = 125
 
-func count(tier string) int { return len(aItems(tier)) + 1 + pCount()/pChunk }
+func count(tier string) int { return len(aItems(tier)) + 1 + pCount()/pChunk + 1 }
 
 func run(tier string, idx int, r *core.ScnResult) {
 	as := aItems(tier)
@@ -530,6 +641,20 @@ func run(tier string, idx int, r *core.ScnResult) {
 	// provider scripts
 	c := idx - 1
 	r.Nontrivial = true
+	if c == pCount()/pChunk {
+		// fetcher histories
+		hs := fHistories(tier)
+		for _, h := range hs {
+			r.Evals++
+			r.Stats.Executions++
+			if k, d := checkFetcher(h); k != "" {
+				r.Fail(core.Failure{Key: "C18 public-ip-fetcher/" + k, What: d, Scenario: core.JSON(map[string]any{"fetcher_history": h})})
+			}
+		}
+		r.Outcome(fmt.Sprintf("fetcher-histories=%d", len(hs)))
+		r.Sample = core.JSON(map[string]any{"fetcher_histories": len(hs), "alphabet": fOps})
+		return
+	}
 	for i := c * pChunk; i < (c+1)*pChunk; i++ {
 		sc := &PScn{Jitter: []float64{0, 0.5, 0.999}[i%3]}
 		k := i / 3
@@ -557,6 +682,7 @@ func replay(scn json.RawMessage, choices []int) (string, bool) {
 		E *AScn  `json:"enrich"`
 		H []int  `json:"history"`
 		P *PScn  `json:"providers"`
+		F []int  `json:"fetcher_history"`
 	}
 	json.Unmarshal(scn, &w)
 	switch {
@@ -570,6 +696,10 @@ func replay(scn json.RawMessage, choices []int) (string, bool) {
 		got, want, _ := runHistory(w.H)
 		if !reflect.DeepEqual(got, want) {
 			return fmt.Sprintf("history %v\nORACLE FAILED: got %+v want %+v\n", w.H, got, want), false
+		}
+	case w.F != nil:
+		if k, d := checkFetcher(w.F); k != "" {
+			return fmt.Sprintf("fetcher history %v\nORACLE FAILED: %s: %s\n", w.F, k, d), false
 		}
 	case w.P != nil:
 		x, ip, err, log, took := runP(w.P)
@@ -585,7 +715,8 @@ func init() {
 	core.Register(&core.Property{ID: "C18", Level: "model_checking",
 		Rule: "(a) every document of <=3 hops + destination over {A4, the same address in 16-byte form, B6, empty, C4} x every assignment of resolver behaviour {names, empty list, error, slow} to the distinct addresses, each explored over every completion order of the concurrent lookup threads (switches at blocking points are free); " +
 			"(b) explicit-state breadth-first search over all cache histories of depth <=6 (thorough 7) over {get(k1) ok, get(k1) error, get(k2) ok, advance to 1ns before expiry, advance past expiry} on the real cache package on the virtual clock, successor = replay on a flushed cache + 1 operation, every step compared with a reference map (value, error, callback invocations); " +
-			"(c) GetPublicIP against all 5^5 provider scripts over {200 valid, 200 invalid body, 4xx, 5xx, transport error} x backoff jitter {min, mid, max}; oracle: names = what the resolver returned for that same address; failures never cached, successes not re-queried before expiry; providers asked in the repository's order, none after the first valid answer, client errors and invalid bodies final; distinct = distinct enriched documents / (ip, error?, request count)",
+			"(c) GetPublicIP against all 5^5 provider scripts over {200 valid, 200 invalid body, 4xx, 5xx, transport error} x backoff jitter {min, mid, max}; oracle: names = what the resolver returned for that same address; failures never cached, successes not re-queried before expiry; providers asked in the repository's order, none after the first valid answer, client errors and invalid bodies final; distinct = distinct enriched documents / (ip, error?, request count); " +
+			"(d) every history of <=4 (thorough 5) operations over {lookup while the providers answer an IPv4 / an IPv6 address / fail, advance 1h, advance past 2h} on one real PublicIPFetcher vs a reference (value, error, providers contacted?)",
 		Count: count, Run: run, Replay: replay, Exhaustive: true,
 		Assumptions: []string{"a 5xx status is given a body that is not an address (a non-4xx status with a parsable body is treated as an answer by the code, which the statement neither requires nor forbids)",
 			"go-cache and cenkalti/backoff are instrumented copies (time.Now / timers / jitter on the harness's clock and random source); a provider that never answers is C08's subject"}})
